@@ -20,7 +20,7 @@ TECHNIQUE = 'exhaustive enumeration of query-matrix kinds x sizes x wrappings x 
 RULE = ('case = (estimator, query kinds, wrapping, sizes, noise scale, N, noisy|noise-free); kinds: identity, 3I, prefix, all ranges, '
         'generic square, generic tall, difference (1 not in row space), [1;e1] (rank deficient, 1 in row space); sizes 1,2,3,4,8,16,32,64 '
         'for single measurements, all ordered pairs of kinds on a two-attribute domain; estimators: FactoredInference, LocalInference, '
-        'PublicInference, mixture_inference.estimate_total (extracted with ast). non-trivial = matrix size >= 2; distinct = digest of the case.')
+        'PublicInference, mixture_inference.estimate_total (extracted with ast); wrappings dense / sparse / operator and, for sizes 2 and 8, the element types int64 / bool / float32 / sparse int64 where exact. non-trivial = matrix size >= 2; distinct = digest of the case.')
 LEVEL_TEXT = ('Complete sweep of the stated matrix-kind x size x wrapping x noise alphabet through each of the four copies of the estimator; '
               'the returned total is compared with the closed-form minimum-variance combination computed with a dense pseudo-inverse, '
               'and with N for noise-free full-rank measurements; supplied totals are checked bit for bit.')
